@@ -5,8 +5,10 @@
  *   0xFF over the unescaped bytes, frame good iff the residue is 0, the delivered packet is the
  *   unescaped bytes since the last start marker minus the trailing CRC byte.
  *   idle:      START -> in-frame with an empty line; anything else is garbage.
- *   in-frame:  START (when START != STOP) restarts the frame; STOP ends it (NEWPACKAGE iff
- *              residue 0, else CRC error) -> idle; STUB -> escape; else data.
+ *   in-frame:  START (when START != STOP) restarts the frame; when the markers coincide a marker
+ *              arriving with nothing collected is a repeated start (C05: "from the second frame at
+ *              the latest" requires it, the legacy receiver does the same); otherwise STOP ends the
+ *              frame (NEWPACKAGE iff residue 0, else CRC error) -> idle; STUB -> escape; else data.
  *   escape:    E_START/E_STOP/E_STUB -> data START/STOP/STUB; START restarts the frame;
  *              anything else is a stuffing error -> idle.
  *   data:      stored if fewer than cap-1 bytes are held, else overflow -> idle.
@@ -48,6 +50,7 @@ static inline int spec_gs_step(struct gs_ref *r, char c)
     if (r->st == 1) {
         if (c == r->a.START && r->a.START != r->a.STOP) { r->len = 0; r->crc = 0xFF; return GS_FORCE_RESTART; }
         if (c == r->a.STOP) {
+            if (r->a.START == r->a.STOP && r->len == 0) return GS_CONTINUE;   /* repeated start marker */
             r->st = 0;
             if (r->crc != 0) return GS_CRC_ERROR;
             r->len -= 1;             /* strip the CRC byte (residue 0 implies len >= 1) */
